@@ -103,7 +103,7 @@ type c03JrnCfg struct {
 	kinds    int // entry kinds offered
 	fillers  int // filler choices per gap: 1 none; 2 +blank; 3 +comment line; 4 +blank and comment line; 5 +comment, blank
 	crlf     int
-	gapFirst bool // fillers also before the first entry
+	firstFillers int // filler choices before the first entry (0: nothing there)
 }
 
 // c03Filler: the lines between entries; returns the lines and the top-level comments in them.
@@ -136,8 +136,8 @@ func verifC03Journal(cfg c03JrnCfg) {
 	}
 	var lines []string
 	var cms []c03Comment
-	if cfg.gapFirst {
-		l, c := c03Filler("g0", cfg.fillers)
+	if cfg.firstFillers > 0 {
+		l, c := c03Filler("g0", cfg.firstFillers)
 		lines, cms = append(lines, l...), append(cms, c...)
 	}
 	e1 := c03MkEntry("e1", zzverif.Choice("e1.kind", cfg.kinds))
@@ -244,5 +244,5 @@ func VerifC03Journal() {
 }
 
 func VerifC03JournalDeep() {
-	verifC03Journal(c03JrnCfg{kinds: c03EntryKinds, fillers: 5, crlf: 1, gapFirst: true})
+	verifC03Journal(c03JrnCfg{kinds: c03EntryKinds, fillers: 5, crlf: 1, firstFillers: 2})
 }
